@@ -54,6 +54,11 @@ def gen_case(rng):
             continue
         if k < 0.36 and seg == "e":
             n = rng.randrange(0, 6)
+            if rng.random() < 0.3:
+                # a gap first: the reservation does not start at address 0 / at the end of the previous data
+                gap = rng.randrange(1, 5)
+                lines.append(".org %d" % (len(eep) + gap))
+                eep += bytes(gap)
             lines.append(".byte %d" % n)
             eep += bytes(n)
             continue
